@@ -405,6 +405,14 @@ def simplify(s: Sym) -> Sym:
             a, b = (xs[1], xs[0]) if swap else (xs[0], xs[1])
             inner = simplify(OP(pos, a, b))
             return simplify(OP("not", inner)) if neg else inner
+        if op in ("is", "==") and len(xs) == 2:
+            # a symbolic reference to a global (class / function) against the name itself: same spelling, same object;
+            # two different plain global names denote different objects
+            for a_, b_ in ((xs[0], xs[1]), (xs[1], xs[0])):
+                if a_[0] == "c" and type(a_[1]).__name__ == "SymName" and b_[0] in ("n", "a"):
+                    d_ = dotted(b_)
+                    if d_ and "?" not in d_ and not d_.startswith("$"):
+                        return C(str(a_[1]) == d_)
         if all(x[0] == "c" for x in xs):
             try:
                 return C(_fold_op(op, [x[1] for x in xs]))
